@@ -362,6 +362,7 @@ func init() {
 		Run: func(c *Ctx) {
 			c.TLSConfig("C19")
 			c.IdentitySource("C19")
+			c.AuthoriseBeforeAct("C07")       // the decision is taken by the checker, for the name itself, before anything is done
 			c.CheckSemantics("C07")           // the decision is taken under the entry of the very name the certificate bears
 			c.CredentialsRequestScoped("C19") // every decision is taken under the request's own authenticated name
 			c.PeerGate("C19")                 // the key-generation service identifies its callers from the same verified name
